@@ -186,6 +186,11 @@ Theorem unit_roundtrip_numeric : forall (d : dec) (u : str), u <> [] -> forallb 
   exists d', unit_parse (unit_str d u) = Some (d', u) /\ dec_num_eqb d d' = true.
 Proof. exact unit_roundtrip_numeric_lemma. Qed.
 Print Assumptions unit_roundtrip_numeric.
+(* writing a length out and reading it back never changes what Unit.convert("px", dpi) answers, whatever the exponent of the Decimal *)
+Theorem unit_convert_after_roundtrip : forall (d : dec) (u : str) (dpi : Z), u <> [] -> forallb is_letter u = true ->
+  exists d', unit_parse (unit_str d u) = Some (d', u) /\ unit_convert_px d' u dpi = unit_convert_px d u dpi.
+Proof. exact unit_convert_after_roundtrip_lemma. Qed.
+Print Assumptions unit_convert_after_roundtrip.
 Example unit_posexp_example : unit_str (mkdec false 15 2) s_cm = [49;53;48;48;99;109]%N /\ unit_parse [49;53;48;48;99;109]%N = Some (mkdec false 1500 0, s_cm).
 Proof. split; vm_compute; reflexivity. Qed.
 
